@@ -133,7 +133,7 @@ theorem svcStep_clean (cfg : Cfg) (f : Faults) (s : St) (id : Id) (hok : f.svc i
       simp only [Option.map_some, Option.some.injEq] at h
       subst h; exact ⟨rfl, rfl⟩
     · obtain ⟨_, _, _, s4⟩ := register_spec hc'
-      rcases s4 with h | ⟨h, _, _⟩
+      rcases s4 with h | ⟨h, _⟩
       · exact h
       · rw [h]; exact hn.2
   · rename_i d t lo he
@@ -176,7 +176,7 @@ theorem syncCheck_clean (cfg : Cfg) (f : Faults) (s : St) (k : Id) (d : ChkDef) 
     simp only [Option.map_some, Option.some.injEq] at h
     subst h; exact ⟨rfl, rfl⟩
   · obtain ⟨_, _, _, s4⟩ := register_spec hc'
-    rcases s4 with h | ⟨h, _, _⟩
+    rcases s4 with h | ⟨h, _⟩
     · exact h
     · rw [h]; exact hn.2
 
